@@ -1,4 +1,5 @@
 import PyTrie.Lemmas.RawRefines
+import PyTrie.Lemmas.BinRawRefines
 /-! # The raw-level write path refines the effect layer (tightens the tie for C01, C02, C04, C05, C06, C07)
 
 `Model/HexRaw.lean` transcribes `_set`, `_set_kv_node`, `_set_branch_node`, `_delete`, `_delete_kv_node`,
@@ -29,5 +30,30 @@ theorem delete_refines (H : Bytes → Bytes) (hlen : ∀ b, (H b).length = 32) (
 
 /-- py-trie's own hashing is the instance `H = keccak` -/
 theorem keccak_is_std : keccakHashing = stdHashing keccak := keccakHashing_eq
+
+end PyTrie.Props.Raw
+
+/-! ## Binary trie -/
+namespace PyTrie.Props.Raw
+open PyTrie PyTrie.Bin PyTrie.BinRaw
+
+/-- the raw-level `BinaryTrie._set` (over node hashes and the database; store, delete and delete_subtrie
+    modes) returns the hash of the tree-level result and saves exactly the nodes `bsetS` lists, in order;
+    it raises `NodeOverrideError` exactly when the tree-level function does -/
+theorem bin_set_refines (H : Bytes → Bytes) (hlen : ∀ b, (H b).length = 32) (t : BNode) (hc : BCanon t) (k : Bits) (v : Bytes)
+    (sub : Bool) (st : BinRaw.St) (hst : AllStored H st.db t) (hnc : NoCollisionOp H t (bsetS t k v sub).2)
+    (fuel : Nat) (hf : k.length + 1 < fuel) :
+    BinRaw.rawSet H (H []) fuel st (hashNode H t) k v sub =
+      match (bsetS t k v sub).1 with
+      | .ok t' => .ok (rootOf H t', { db := applySaves H st.db (bsetS t k v sub).2 })
+      | .error _ => .error .override :=
+  BinRaw.rawSet_refines H hlen t hc k v sub st hst hnc fuel hf
+
+theorem bin_set_blank (H : Bytes → Bytes) (hlen : ∀ b, (H b).length = 32) (k : Bits) (hk : k ≠ []) (v : Bytes) (sub : Bool)
+    (st : BinRaw.St) (fuel : Nat) (hf : 0 < fuel) :
+    BinRaw.rawSet H (H []) fuel st (H []) k v sub =
+      .ok (rootOf H (match bsetTop none k v sub with | .ok t' => t' | .error _ => none),
+           { db := applySaves H st.db (bsetTopS none k v sub).2 }) :=
+  BinRaw.rawSet_blank H hlen k hk v sub st fuel hf
 
 end PyTrie.Props.Raw
